@@ -1297,16 +1297,30 @@ def run(ctx):
     tb.start()
     ts_ = threading.Thread(target=build_stages)
     ts_.start()
+    def build_model():
+        try:
+            builds["model"] = ctx.extract()
+        except vlib.BuildError as ex:
+            builds["model_error"] = str(ex)
+        builds["t_model"] = ctx.elapsed()
+
+    # extraction + ocamlopt overlap with the proof build (the make steps serialise on vlib's lock; only
+    # reads of finished .vo files happen outside it)
+    tm = threading.Thread(target=build_model)
+    tm.start()
     coq = ctx.coq()
     t_coq = ctx.elapsed()
-    mexe = ctx.extract()
+    tm.join()
     t_extract = ctx.elapsed()
     ts_.join()
     tb.join()
     t_cpp = ctx.elapsed()
     th.join()
-    phase_times = {"coq": round(t_coq, 1), "extract": round(t_extract - t_coq, 1),
+    phase_times = {"coq": round(t_coq, 1), "extract_done_at": round(builds.get("t_model", 0), 1),
                    "wait_for_c++": round(t_cpp - t_extract, 1), "wait_for_translator": round(ctx.elapsed() - t_cpp, 1)}
+    if "model_error" in builds:
+        raise vlib.BuildError(builds["model_error"])
+    mexe = builds["model"]
     for k in ("emb_error", "st_error"):
         if k in builds:
             raise vlib.BuildError(builds[k])
